@@ -9,14 +9,20 @@ R1 cartesian product: in every `combine` that calls `self._product`, each `_prod
    the singleton `[token]` and every other port by its full list, yields once per combination and retags with
    <own prefix> + <last component of every member>; `_add_to_port` refuses a token whose tag is already
    present; wiring: `add_combinator` / `get_combinator` / `utils.dict_product`.
+   Order provenance (`_tag_order`, every Combinator subclass): a tag assembled from components (`'.'.join(seq)` handed to
+   `retag` / `tag=`) must not take the ORDER of `seq` from the key order of `self._token_values` / `self._token_values[tag]`
+   (dict insertion order = order in which tags / ports received their first token) -- followed through locals, copies,
+   comprehensions, `utils.dict_product(**m)` entries and through the loops that fill a local container in place; in the
+   cartesian product the order must be traceable to `self.items` (declaration order) or be fixed by the code.
 R2 dot product (`DotProductCombinator._product`): all pending tags are scanned, emission only when the port
    map is complete (`==`), every port list loses exactly one element per emission (`pop`/`popleft`) and that
    element is stored in the schema under its own port key, the number of emissions is the minimum list length,
    emitted tokens are retagged with `get_tag` of the combination.
 R3 propagation (`Combinator._add_to_list`): tag of a schema via `get_tag`, `depth` trailing components stripped,
    both directions of `_is_parent_tag` handled with the right operands under `propagate`, the equal tag is
-   skipped, the token is finally inserted under its own tag on every path; the base `_add_to_port` stores the
-   token exactly once; `_is_parent_tag` compares component lists (`split('.')`), never raw strings.
+   skipped, the scan over the stored tags cannot be left early (`break` / `return`: the entries registered later would
+   be treated differently from those registered earlier), the token is finally inserted under its own tag on every path;
+   the base `_add_to_port` stores the token exactly once; `_is_parent_tag` compares component lists (`split('.')`), never raw strings.
 R4 step drivers (`CombinatorStep.run`, `LoopCombinatorStep.run`): every token that is not a (iteration)
    termination token reaches `self.combinator.combine(task_name, token)`; every yielded schema is persisted
    and put on each of its ports (same port name for `put` and `_persist_token`, provenance = all input ids);
@@ -30,6 +36,9 @@ R5 union discrimination: in every Combinator subclass a Token attribute (`.tag`,
 All rules of DESIGN section 3 (C02.R1-R5) are implemented.  Deliberately not constrained: LIFO vs FIFO removal
 inside a port list (`pop()` / `pop(0)` / `popleft()` are all accepted -- DESIGN: undecided), the provenance ids
 attached to the emitted schemas inside the combinators (C07), `utils.get_tag` itself (C33).
+Not decided by the order-provenance check: the internal key order of ONE element taken out of a container (`config[key]`,
+an inner-combinator schema merged with `schema |= ...`) -- it is whatever the inner combinator emitted (S11 territory);
+the order in which combinations / ports are emitted (irrelevant for the multiset).
 """
 
 from __future__ import annotations
@@ -281,6 +290,7 @@ def r1(ctx):
                    instance=f"{f.cls.name}.combine:yield:{i}", message=f"{f.qualname}: combinations computed by `_product` are not all yielded to the step")
     ctx.require(n_classes >= 2, f"C02.R1: only {n_classes} combine() implementations call _product (cartesian and dot expected)")
     _wiring(ctx)
+    _tag_order(ctx)
 
     # --- CartesianProductCombinator._product
     f = p.func(f"{CART}._product")
@@ -490,6 +500,235 @@ def _dup_polarity(f, e, slot, tok):
         if e.func.id == "all" and isinstance(c.ops[0], ast.NotEq):
             return False
     return None
+
+
+# --------------------------------------------------------------------------- R1: order provenance of composite tags
+#
+# `self._token_values` and the per-tag port maps `self._token_values[tag]` are plain dicts: their key order is the order in
+# which tags / ports received their FIRST token, i.e. it depends on the schedule.  `self.items` is filled once by the
+# translator (add_item / add_combinator): declaration order.  A tag that is assembled component by component
+# (`'.'.join(<sequence>)`) is schedule-independent only if the ORDER of that sequence does not come from such a dict.
+
+ORDER_KEEPING_CALLS = {"list", "tuple", "dict", "iter", "deque", "OrderedDict", "enumerate", "zip"}
+ORDER_FREE_CALLS = {"range", "str", "int", "len", "repr"}
+IN_PLACE_GROW = {"append", "setdefault", "add"}
+IN_PLACE_MERGE = {"update", "extend"}
+IN_PLACE_REORDER = {"insert", "appendleft", "extendleft", "reverse", "sort", "move_to_end"}
+
+
+def _enclosing_loops(node):
+    return [a for a in ancestors(node) if isinstance(a, (ast.For, ast.AsyncFor, ast.While))]
+
+
+def _within(node, root) -> bool:
+    return any(a is root for a in ancestors(node))
+
+
+def _order_of(p, f, e, seen=frozenset(), depth=12, trace=None) -> set[str]:
+    """Where the order of the elements (keys) of the sequence / mapping `e` comes from:
+    'decl'     self.items (declaration order);
+    'arrival'  key order of self._token_values / of one of its port maps / element order of a port list;
+    'neutral'  fixed by the code or by a single value (literal, components of one string, one element of a container);
+    'unknown'  anything the analysis cannot trace (opaque call, sorted / reversed / set order, while loops).
+    `trace` (a list) receives (node, labels) for every leaf / loop that contributes 'arrival' or 'unknown'."""
+    from ..dataflow import defs_of
+
+    e = strip_cast(e)
+    if depth <= 0:
+        return {"unknown"}
+
+    def rec(x, s=seen):
+        return _order_of(p, f, x, s, depth - 1, trace)
+
+    def leaf(label):
+        if trace is not None:
+            trace.append((e, {label}))
+        return {label}
+
+    if isinstance(e, ast.Starred):
+        return rec(e.value)
+    if is_self_attr(e, "items"):
+        return {"decl"}
+    if _tv(e):
+        return leaf("arrival")
+    if isinstance(e, ast.Subscript):
+        if isinstance(e.slice, ast.Slice):
+            st = e.slice.step
+            if st is None or (isinstance(st, ast.Constant) and isinstance(st.value, int) and st.value > 0):
+                return rec(e.value)
+            return leaf("unknown") | (rec(e.value) - {"decl"})
+        b = e.value
+        while isinstance(b, ast.Subscript) and not isinstance(b.slice, ast.Slice):
+            b = b.value
+        if _tv(b):
+            return leaf("arrival")  # a port map or a port list
+        # one element of a container: its own order is decided by whoever produced it (an inner combinator) -- not decided here
+        return {"neutral"}
+    if isinstance(e, (ast.Constant, ast.JoinedStr)):
+        return {"neutral"}
+    if isinstance(e, (ast.List, ast.Tuple)):
+        out = {"neutral"}
+        for x in e.elts:
+            if isinstance(x, ast.Starred):
+                out |= rec(x.value)
+        return out
+    if isinstance(e, ast.Dict):
+        out = {"neutral"}
+        for k, v in zip(e.keys, e.values):
+            if k is None:
+                out |= rec(v)
+        return out
+    if isinstance(e, ast.BinOp) and isinstance(e.op, (ast.Add, ast.BitOr)):
+        return rec(e.left) | rec(e.right)
+    if isinstance(e, ast.IfExp):
+        return rec(e.body) | rec(e.orelse)
+    if isinstance(e, (ast.ListComp, ast.GeneratorExp, ast.DictComp)):
+        out = set()
+        for gen in e.generators:
+            out |= rec(gen.iter)
+        return out
+    if isinstance(e, ast.Call):
+        if method_call(e) and e.func.attr in ("items", "keys", "values", "copy") and not e.args and not e.keywords:
+            return rec(e.func.value)
+        if method_call(e) and e.func.attr in ("split", "rsplit", "join", "format", "partition", "rpartition"):
+            return {"neutral"}  # components of one string
+        if DICT_PRODUCT in p.resolve_call(f, e, fanout=False):
+            # every yielded dict has the key order of the keyword mapping
+            out = {"neutral"}
+            for k in e.keywords:
+                if k.arg is None:
+                    out |= rec(k.value)
+            return out
+        name = (dotted(e.func) or "").split(".")[-1]
+        if name in ORDER_KEEPING_CALLS and e.args and not e.keywords:
+            out = set()
+            for a in e.args:
+                out |= rec(a)
+            return out
+        if name in ORDER_FREE_CALLS:
+            return {"neutral"}
+        if name == "reversed" and len(e.args) == 1:
+            return leaf("unknown") | (rec(e.args[0]) - {"decl"})
+        # sorted / set / opaque helpers: neither provably the arrival order nor the declaration order
+        return leaf("unknown")
+    if isinstance(e, ast.Name):
+        if e.id in seen:
+            return set()
+        s2 = seen | {e.id}
+        out: set[str] = set()
+        for d in defs_of(f, e.id):
+            if d.kind == "param":
+                out.add("neutral")
+            elif d.kind in ("assign", "walrus"):
+                if d.index is None:
+                    out |= rec(d.value, s2)
+                else:
+                    out.add("neutral")  # one element of an unpacked value
+            elif d.kind == "aug":
+                out |= rec(d.value, s2)
+                out |= _loops_order(p, f, d.stmt, inits_of=e.id, seen=s2, depth=depth, trace=trace)
+            elif d.kind in ("for", "comp"):
+                out |= _element_order(p, f, d, s2, depth, trace)
+            else:
+                out |= leaf("unknown")
+        # in-place growth: `x[k] = v`, `x.update(m)`, `x.append(v)`, ... inside loops
+        for n in f.body_nodes():
+            if isinstance(n, (ast.Assign, ast.AugAssign, ast.AnnAssign)):
+                tgts = n.targets if isinstance(n, ast.Assign) else [n.target]
+                if any(isinstance(t, ast.Subscript) and is_name(t.value, e.id) for t in tgts):
+                    out |= _loops_order(p, f, n, inits_of=e.id, seen=s2, depth=depth, trace=trace)
+            elif method_call(n) and is_name(n.func.value, e.id):
+                a = n.func.attr
+                if a in IN_PLACE_REORDER:
+                    out.add("unknown")
+                    if trace is not None:
+                        trace.append((n, {"unknown"}))
+                if a in IN_PLACE_GROW or a in IN_PLACE_MERGE or a in IN_PLACE_REORDER:
+                    out |= _loops_order(p, f, n, inits_of=e.id, seen=s2, depth=depth, trace=trace)
+                if a in IN_PLACE_MERGE and n.args:
+                    out |= rec(n.args[0], s2)
+        return out or {"neutral"}
+    return leaf("unknown")
+
+
+def _loops_order(p, f, site, inits_of, seen, depth, trace=None) -> set[str]:
+    """Order contributed by the loops around an in-place growth of local `inits_of`: every enclosing loop that does not
+    re-create the container on each iteration decides in which order the entries are inserted."""
+    from ..dataflow import defs_of
+
+    out: set[str] = set()
+    inits = [d.stmt for d in defs_of(f, inits_of) if d.kind in ("assign", "walrus") and d.index is None and d.stmt is not None]
+    for lp in _enclosing_loops(site):
+        if any(_within(i, lp) for i in inits):
+            continue
+        r = {"unknown"} if isinstance(lp, ast.While) else _order_of(p, f, lp.iter, seen, depth - 1, trace)
+        if trace is not None and r & {"arrival", "unknown"}:
+            trace.append((lp, r & {"arrival", "unknown"}))
+        out |= r
+    return out
+
+
+def _element_order(p, f, d, seen, depth, trace=None) -> set[str]:
+    """Order of a loop / comprehension variable that is itself a container: known only for the dicts yielded by
+    utils.dict_product(**m) (key order of m); any other element is 'neutral' (see `_order_of`, Subscript)."""
+    if d.index is not None:
+        return {"neutral"}
+    bases = iter_base(f, d.value, ordered=False) or orig(f, d.value)
+    out = {"neutral"}
+    for b in bases:
+        for o in orig(f, b):
+            if isinstance(o, ast.Call) and DICT_PRODUCT in p.resolve_call(f, o, fanout=False):
+                out |= _order_of(p, f, o, seen, depth - 1, trace)
+    return out
+
+
+def _tag_sequences(f, c):
+    """Sequences joined with '.' into the tag handed to `c` (`x.retag(<tag>)` or `K(tag=<tag>)`)."""
+    tag = None
+    if method_call(c, "retag") and len(c.args) == 1 and not c.keywords:
+        tag = c.args[0]
+    elif isinstance(c, ast.Call):
+        tag = next((k.value for k in c.keywords if k.arg == "tag"), None)
+    if tag is None:
+        return []
+    return [o.args[0] for o in orig(f, tag)
+            if method_call(o, "join") and isinstance(o.func.value, ast.Constant) and o.func.value.value == "." and len(o.args) == 1]
+
+
+def _tag_order(ctx):
+    """Every tag assembled from components inside a Combinator must not take the order of its components from the insertion
+    order of self._token_values (first-arrival order of tags / ports); in the cartesian product the order must be traceable
+    to self.items (or be fixed by the code)."""
+    p = ctx.prog
+    n_cart = 0
+    for cq in [COMB] + p.subclasses(COMB):
+        c = p.cls(cq)
+        strict = p.is_subclass(cq, CART)
+        for f in c.methods.values():
+            sites = [(x, _tag_sequences(f, x)) for x in f.calls()]
+            sites = [(x, s) for x, s in sites if s]
+            for i, (x, seqs) in enumerate(sites):
+                src: set[str] = set()
+                trace: list = []
+                for s in seqs:
+                    src |= _order_of(p, f, s, trace=trace)
+                bad = "arrival" in src or (strict and "unknown" in src)
+                n_cart += 1 if strict else 0
+                label = "arrival" if "arrival" in src else "unknown"
+                hits = [n for n, ls in trace if label in ls]
+                culprit = next((n for n in hits if isinstance(n, (ast.For, ast.AsyncFor, ast.While))), hits[0] if hits else x)
+                head = unparse(culprit).split("\n")[0][:90]
+                if label == "arrival":
+                    why = (f"the order of the tag components is decided by `{head}`, i.e. by the key order of self._token_values (the order in which "
+                           "ports / tags received their first token): the same combination gets a different tag under another arrival order")
+                else:
+                    why = f"the order of the tag components (`{head}`) cannot be traced to the declaration order self.items"
+                ctx.ob("R1", f"{c.name}.{f.name}: the component order of composite tag #{i + 1} does not depend on the arrival order"
+                       + (" (declaration order self.items)" if strict else ""), not bad, func=f, node=(culprit if bad else x),
+                       instance=f"{c.name}.{f.name}:tag-order:{i}", message=f"{f.qualname}: `{unparse(x)[:90]}`: {why}",
+                       witness=[f"order sources of `{unparse(s)[:100]}`: {sorted(_order_of(p, f, s))}" for s in seqs]
+                       + list(dict.fromkeys(f"L{getattr(n, 'lineno', '?')}: {unparse(n).splitlines()[0][:100]} -> {sorted(ls)}" for n, ls in trace)))
+    ctx.require(n_cart >= 1, "C02.R1: no composite tag ('.'.join(...) handed to retag) found in CartesianProductCombinator")
 
 
 # --------------------------------------------------------------------------- R2
@@ -719,6 +958,18 @@ def r3(ctx):
         return
     keyv = loops[0].target.id
     hid = g.ids_of(loops[0])
+    # the scan visits every stored tag: the insertion order of self._token_values is the arrival order, so a scan that can stop
+    # at some entry (break / return) treats the entries registered later differently from those registered earlier
+    early = None
+    for s_ in (branch_succ(g, hid[0], "t") if hid else []):
+        early = early or g.path(s_, [g.exit], avoid=hid)
+    leave = next((g.nodes[i] for i in (early or []) if g.nodes[i].kind in ("break", "return")), None)
+    ctx.ob("R3", "the propagation scan is never left before every stored tag was compared", bool(hid) and early is None, func=f,
+           node=(leave.ast if leave is not None and leave.ast is not None else loops[0]), instance="add_to_list:scan-complete",
+           message="_add_to_list can leave the scan over self._token_values early"
+                   + (f" (`{leave.text()}` at L{leave.lineno})" if leave is not None else "")
+                   + ": stored tags registered after that entry never exchange tokens with the arriving one, so the emitted combinations depend on the arrival order",
+           witness=g.describe(early) if early else [])
     ptests = [t for t in g.nodes.values() if t.kind == "test" and is_param(f, t.ast, prop)]
     under_prop = bool(ptests) and bool(hid) and all(
         g.dominates(t.id, hid[0]) and hid[0] not in g.reach(branch_succ(g, t.id, "f"), avoid=[t.id], include_src=True) for t in ptests)
@@ -767,7 +1018,8 @@ def r3(ctx):
     eq = [t for t in g.nodes.values() if t.kind == "test" and isinstance(t.ast, ast.Compare) and len(t.ast.ops) == 1
           and isinstance(t.ast.ops[0], (ast.Eq, ast.NotEq))
           and {ast.dump(t.ast.left), ast.dump(t.ast.comparators[0])} == {ast.dump(ast.Name(id=tagv, ctx=ast.Load())), ast.dump(ast.Name(id=keyv, ctx=ast.Load()))}]
-    adders = [n.id for n in g.nodes.values() if any(self_call(c, "_add_to_port") for c in node_calls(g, n))]
+    # (only the insertions inside the scan: leaving the scan towards the final insertion is reported by `scan-complete`)
+    adders = [n.id for n in g.nodes.values() if any(self_call(c, "_add_to_port") and any(x is c for x in ast.walk(loops[0])) for c in node_calls(g, n))]
     ok = False
     for t in eq:
         same_kind = "t" if isinstance(t.ast.ops[0], ast.Eq) else "f"
@@ -1230,8 +1482,10 @@ def r5(ctx):
 
 RULES = [("R1", r1), ("R2", r2), ("R3", r3), ("R4", r4), ("R5", r5)]
 # R1: 2 combine() x (2 product calls + 2 add calls) + 2 cartesian product-operand checks + 4 cartesian shape checks;
+# + 1 composite-tag order check in cartesian _product (a second one, LoopCombinator._product, exists today but is not required);
+# R3: 11 with the scan-complete check;
 # R5: 2 discriminated variables (Combinator._add_to_list token, dot _product element) + 3 undiscriminated (S11) today
-FLOORS = {"R1": 22, "R2": 6, "R3": 10, "R4": 6, "R5": 2}
+FLOORS = {"R1": 23, "R2": 6, "R3": 11, "R4": 6, "R5": 2}
 
 _CCOMB = f"{CART}.combine"
 _DCOMB = f"{DOT}.combine"
@@ -1269,6 +1523,23 @@ VARIANTS = [
     V("add_combinator maps the wrong way round", SFILE, f"{COMB}.add_combinator", "{p: combinator.name for p in items}", "{combinator.name: p for p in items}", "R1"),
     V("add_combinator does not list the combinator", SFILE, f"{COMB}.add_combinator", "self.items.append(combinator.name)\n    ", "", "R1"),
     V("dict_product zips instead of multiplying", "streamflow/core/utils.py", DICT_PRODUCT, "itertools.product(*vals)", "zip(*vals)", "R1"),
+    # order provenance of the composite tag (seeded changes C02-2 / C05-1)
+    V("cartesian: schema assembled in the key order of the product entry (first-arrival order of the ports)", CFILE, _CPROD,
+      "for key in self.items:\n                if key in self.combinators:\n                    schema |= config[key]\n                else:\n                    schema[key] = config[key]",
+      "for key, value in config.items():\n                if key in self.combinators:\n                    schema |= value\n                else:\n                    schema[key] = value", "R1", control=True),
+    V("cartesian: suffix read from the product entry", CFILE, _CPROD, "for t in schema.values()]", "for t in config.values()]", "R1"),
+    V("cartesian: schema assembled by scanning the port map", CFILE, _CPROD, "for key in self.items:", "for key in self._token_values[tag]:", "R1"),
+    V("cartesian: schema is a copy of the product entry", CFILE, _CPROD,
+      "schema: dict[str, Token] = {}\n            for key in self.items:\n                if key in self.combinators:\n                    schema |= config[key]\n                else:\n                    schema[key] = config[key]", "schema = {k: v for k, v in config.items()}", "R1"),
+    V("cartesian: suffix order by port name instead of declaration order", CFILE, _CPROD, "for key in self.items:", "for key in sorted(self.items):", "R1"),
+    V("dot: composite tag in the key order of the port map", CFILE, _DPROD, "t['token'].retag(tag)",
+      "t['token'].retag('.'.join(['0'] + [x['token'].tag.split('.')[-1] for x in schema.values()]))", "R1"),
+    V("benign: declaration order through a copy", CFILE, _CPROD, "for key in self.items:", "for key in list(self.items):", None),
+    V("benign: declaration order through a local and enumerate", CFILE, _CPROD, "            for key in self.items:",
+      "            order = tuple(self.items)\n            for _, key in enumerate(order):", None),
+    V("benign: product entry value in a temporary", CFILE, _CPROD,
+      "for key in self.items:\n                if key in self.combinators:\n                    schema |= config[key]\n                else:\n                    schema[key] = config[key]",
+      "for key in self.items:\n                value = config[key]\n                if key in self.combinators:\n                    schema |= value\n                else:\n                    schema[key] = value", None),
     # ---- R2
     V("dot: element stored under the tag instead of the port", CFILE, _DPROD, "schema[key] = {'token': element", "schema[tag] = {'token': element", "R2"),
     V("dot: completeness == -> <=", CFILE, _DPROD, "if len(self._token_values[tag]) == len(self.items):", "if len(self._token_values[tag]) <= len(self.items):", "R2", control=True),
@@ -1299,6 +1570,13 @@ VARIANTS = [
       "next(iter(token.values()))['token'].tag if isinstance(token, MutableMapping) else token.tag", "R3"),
     V("equal tag propagated to itself", SFILE, _ADD, "if tag == key:\n                continue\n            elif _is_parent_tag(key, tag):", "if _is_parent_tag(key, tag):", "R3"),
     V("base _add_to_port keeps only the first token of a port", SFILE, f"{COMB}._add_to_port", "    tag_values[port_name].append(token)", "        tag_values[port_name].append(token)", "R3"),
+    V("scan stops at the entry with the same tag (seeded change C05-2)", SFILE, _ADD, "if tag == key:\n                continue", "if tag == key:\n                break", "R3"),
+    V("scan stops after the first child tag", SFILE, _ADD, "self._add_to_port(token, self._token_values[key], port_name)\n",
+      "self._add_to_port(token, self._token_values[key], port_name)\n                break\n", "R3"),
+    V("only the direct parent tag is copied (seeded change C02-3)", SFILE, _ADD, "elif _is_parent_tag(tag, key):", "elif key == '.'.join(tag.split('.')[:-1]):", "R3"),
+    V("benign: equal tag skipped with a nested test", SFILE, _ADD,
+      "if tag == key:\n                continue\n            elif _is_parent_tag(key, tag):\n                self._add_to_port(token, self._token_values[key], port_name)\n            elif _is_parent_tag(tag, key):\n                for p in self._token_values[key]:\n                    for t in self._token_values[key][p]:\n                        self._add_to_port(t, self._token_values.setdefault(tag, {}), p)",
+      "if tag != key:\n                if _is_parent_tag(key, tag):\n                    self._add_to_port(token, self._token_values[key], port_name)\n                elif _is_parent_tag(tag, key):\n                    for p in self._token_values[key]:\n                        for t in self._token_values[key][p]:\n                            self._add_to_port(t, self._token_values.setdefault(tag, {}), p)", None),
     # ---- R4
     V("driver: re-arm removed", SFILE, f"{CSTEP}.run",
       "\n                if task_name not in terminated:\n                    input_tasks.append(asyncio.create_task(self.get_input_ports()[task_name].get(posixpath.join(self.name, task_name)), name=task_name))", "", "R4"),
